@@ -435,3 +435,15 @@ func has(list []string, s string) bool {
 	}
 	return false
 }
+
+// nil2 adapts a node visitor to EachFunc (visits every node of every function body).
+func nil2(f func(ast.Node)) func(p *packages.Package, fd *ast.FuncDecl) {
+	return func(p *packages.Package, fd *ast.FuncDecl) {
+		ast.Inspect(fd.Body, func(n ast.Node) bool {
+			if n != nil {
+				f(n)
+			}
+			return true
+		})
+	}
+}
